@@ -392,7 +392,11 @@ func (sc *SidecarScope) collectImportedServices(ps *PushContext, configNamespace
 				Name:      vs.Name,
 			}.HashCode())
 			v := vs.Spec.(*networking.VirtualService)
-			for h, ports := range virtualServiceDestinationsFilteredBySourceNamespace(v, configNamespace) {
+			destinations := virtualServiceDestinationsFilteredBySourceNamespace(v, configNamespace)
+			// visit the destinations in hostname order: the order in which services are appended is the order
+			// of the clusters sent to the proxy, which must not follow map iteration order
+			for _, h := range slices.Sort(maps.Keys(destinations)) {
+				ports := destinations[h]
 				byNamespace := ps.ServiceIndex.HostnameAndNamespace[host.Name(h)]
 				// Default to this hostname in our config namespace, provided it is exported to it
 				// (HostnameAndNamespace contains all services regardless of exportTo).
